@@ -246,8 +246,10 @@ static long int cfg_opt_gettsecidx(cfg_opt_t *opt, const char *title)
 	for (i = 0; i < n; i++) {
 		cfg_t *sec = cfg_opt_getnsec(opt, i);
 
-		if (!sec || !sec->title)
+		if (!sec)
 			return -1;
+		if (!sec->title)
+			continue;	/* the first section may be untitled */
 
 		/* a section carries the flags of the context it lives in */
 		if (is_set(CFGF_NOCASE, opt->flags | sec->flags)) {
@@ -2466,8 +2468,10 @@ DLLIMPORT int cfg_opt_rmtsec(cfg_opt_t *opt, const char *title)
 	for (i = 0; i < n; i++) {
 		cfg_t *sec = cfg_opt_getnsec(opt, i);
 
-		if (!sec || !sec->title)
+		if (!sec)
 			return CFG_FAIL;
+		if (!sec->title)
+			continue;
 
 		if (is_set(CFGF_NOCASE, opt->flags | sec->flags)) {
 			if (strcasecmp(title, sec->title) == 0)
